@@ -179,8 +179,9 @@ def run(ctx):
     ctx.rule = ("cases = multi-conformation inputs: TLC-emitted (concretised), repository files, constructed alt-loc/MODEL "
                 "cases; non-trivial = input with >= 2 conformations; distinct = input text")
     ctx.assumptions += ["'completed with the atoms it lacks from the others' is read strongly (DESIGN sec. 5)"]
-    for cfg, label, expect in (("MC_Conformations.cfg", "top-up = declared completion (no mutants)", None),
-                               ("MC_Conformations_nm.cfg", "never merges residue types (with mutants)", None),
+    sfx = ".cfg" if ctx.thorough() else "_q.cfg"
+    for cfg, label, expect in (("MC_Conformations" + sfx, "top-up = declared completion (no mutants)", None),
+                               ("MC_Conformations_nm" + sfx, "never merges residue types (with mutants)", None),
                                ("MC_Conformations_twins.cfg", "twins, label with insertion code", None),
                                ("MC_Conformations_chains.cfg", "two chains sharing a residue number, with mutants", None),
                                ("MC_Conformations_twins_noicode.cfg", "self-test: label without insertion code", "TopUpAgrees"),
